@@ -382,11 +382,14 @@ def make_app_classes():
 
         async def on_connection_error(self, rsocket, exception):
             self.w.rec.log(self.ep, 'cb_conn_error')
+            await self._auto_reconnect(rsocket, 'reconnect_on_error')       # the retry idiom
 
         async def _auto_reconnect(self, rsocket, key):
             # the application asks for a reconnect from inside the notification (the idiom of the repository's examples)
             limit = self.w.opts.get(key, 0)
-            if self.ep == 'c' and limit and self.w.auto_reconnects < limit:
+            used = self.w.auto_reconnects_by.get(key, 0)          # (a budget per notification)
+            if self.ep == 'c' and limit and used < limit:
+                self.w.auto_reconnects_by[key] = used + 1
                 self.w.auto_reconnects += 1
                 self.w.rec.log('c', 'app_reconnect', x=1)
                 await rsocket.reconnect()
@@ -502,6 +505,7 @@ class World:
         self.last_iid = None
         self.adapter_api = None
         self.auto_reconnects = 0
+        self.auto_reconnects_by = {}
         self.loop.set_exception_handler(self._on_loop_exception)
         self._ep_cells = {}
         flags = 0
@@ -660,7 +664,21 @@ class World:
             return wrapped()
 
         t.next_frame_generator = next_frame_generator
-        if self.opts.get('connect_suspends') and ep == 'c':
+        if ep == 'c' and self.generation in (self.opts.get('connect_fails') or ()):
+            # the server is not reachable: connect() of this transport fails (after suspending), nothing can be read or written
+            gen = self.generation
+
+            async def failing_connect():
+                for _ in range(int(self.opts.get('connect_suspends') or 0)):
+                    await asyncio.sleep(0)
+                w.rec.log(ep, 'transport_connect_failed', x=gen)
+                for d in ('c', 's'):
+                    if w.dirs[d].cut is None:
+                        w.dirs[d].do_cut('error')
+                raise ConnectionRefusedError('server not reachable')
+
+            t.connect = failing_connect
+        elif self.opts.get('connect_suspends') and ep == 'c':
             orig_connect = t.connect
             k = int(self.opts['connect_suspends'])
 
